@@ -89,6 +89,19 @@ def consistent_truncations(session=77):
             # as first member of a bundle whose table is consistent with the shortened member
             body = struct.pack('<HHH', 2, 6, 6 + len(part)) + part + good
             out.append(rc.rr_frame(rc.enc_unconnected_send(bytes([0x0A, 0x02, 0x20, 0x02, 0x24, 0x01]) + body), session, b'CTRUNM%02d' % (cut % 100)))
+    # two fields of the Unconnected Send wrapper wrong together (sizes, priority/ticks, inner length, inner path size): a single wrong
+    # field usually misaligns the rest and fails safely; a second one can make the remainder line up again
+    base = rc.rr_frame(rc.enc_unconnected_send(rc.enc_request({'path': {'segment': [{'symbolic': 'H'}, {'element': 1}]}, 'write_tag': {'type': 0xC4, 'elements': 2, 'data': [666, 667]}})), session, b'TWOFIELD')
+    fields = [(38, 2), (41, 1), (46, 1), (47, 1), (48, 2), (51, 1)]
+    for ia in range(len(fields)):
+        for ib in range(ia + 1, len(fields)):
+            for va in (0, 1, 0x40, 0xFF):
+                for vb in (0, 1, 0x40, 0xFF):
+                    b = bytearray(base)
+                    for (off, width), v in ((fields[ia], va), (fields[ib], vb)):
+                        if off + width <= len(b):
+                            b[off:off + width] = int(v).to_bytes(width, 'little')
+                    out.append(bytes(b))
     # attribute data a byte or an element too long or too short (for a single-byte type one stray byte is one whole element)
     for att, exact, size in ((2, 8, 2), (3, 3, 1)):
         for ln in (exact - 1, exact + 1, exact + size, exact * 2, 0):
@@ -154,6 +167,130 @@ def mutate(rng, frame):
                     b[o:o + 2] = int(rng.choice([0, 1, 2, 2 + 2 * n, 2 + 2 * n - 1, 0xFFFF, 0x8000, len(b), rng.randrange(0, 200)])).to_bytes(2, 'little')
         return 'bundle-offsets', bytes(b)
     return 'bitflip', bytes(b[:-1] + bytes([b[-1] ^ 0xFF]))
+
+
+def _greedy_path(b, off, nbytes):
+    """segments from b[off:] up to nbytes, stopping before the first byte that does not start a segment -> (segments, bytes used)"""
+    from vlib import refcodec as rc
+    end = min(len(b), off + nbytes)
+    used = 0
+    while off + used < end:
+        t = b[off + used]
+        if t == 0x91:
+            if off + used + 1 >= end:
+                break
+            n = b[off + used + 1]
+            ln = 2 + n + (n % 2)
+        elif t & 0xE0 == 0x00:
+            ln = 2 if not (t & 0x10) and (t & 0x0F) != 15 else None
+            if ln is None:
+                break                       # extended forms: not needed for the classification
+        elif (t & 0xFC) in (0x20, 0x24, 0x28, 0x30):
+            ln = {0: 2, 1: 4, 2: 6}.get(t & 0x03)
+            if ln is None:
+                break
+        else:
+            break
+        if off + used + ln > end:
+            break
+        used += ln
+    return rc.dec_segments(bytes(b[off:off + used])), used
+
+
+def wellformed_write_present(stream, upper_bound=False):
+    """Does the byte stream contain at least one frame that the reference decoder accepts as a complete write request (Write Tag
+    [Fragmented], Set Attribute Single, or a bundle containing one; bare or inside an Unconnected Send)?  Literal reading: every
+    length, size and count field exactly as the layout tables say.  upper_bound=True: CPF item lengths and EPATH sizes may
+    overstate what is present (the content ends earlier), never understate it.  Used only when a tag has changed."""
+    from vlib import refcodec as rc
+    frames, rest = rc.split_frames(stream)
+
+    def request(cip):
+        """-> True if cip is a complete write request"""
+        svc = cip[0]
+        if upper_bound:
+            segs, used = _greedy_path(cip, 2, 2 * cip[1])
+            off = 2 + used
+        else:
+            segs, off = rc.dec_epath(cip, 1)
+        rest_ = cip[off:]
+        if svc == 0x4D:
+            t, e = struct.unpack_from('<HH', rest_)
+            return len(rc.dec_typed(t, rest_[4:])) >= 1
+        if svc == 0x53:
+            t, e, o = struct.unpack_from('<HHI', rest_)
+            return len(rc.dec_typed(t, rest_[8:])) >= 1
+        if svc == 0x10:
+            return True
+        return False
+
+    def write_request(cip):
+        if not cip:
+            return False
+        svc = cip[0]
+        if svc == 0x52 and len(cip) > 10 and cip[1] == 2 and cip[2:6] == bytes([0x20, 0x06, 0x24, 0x01]):
+            ln, = struct.unpack_from('<H', cip, 8)
+            inner = cip[10:10 + ln]
+            if len(inner) != ln:
+                return False
+            tail = cip[10 + ln + (ln % 2):]
+            if tail:                            # route path: words, pad, segments
+                if len(tail) < 2:
+                    return False
+                if upper_bound:
+                    if len(tail) - 2 > 2 * tail[0]:
+                        return False
+                    _greedy_path(tail, 2, 2 * tail[0])
+                else:
+                    if len(tail) != 2 + 2 * tail[0]:
+                        return False
+                    rc.dec_segments(tail[2:])
+            return write_request(inner)
+        if svc == 0x0A:
+            segs, off = rc.dec_epath(cip, 1)
+            body = cip[off:]
+            n, = struct.unpack_from('<H', body)
+            offs = list(struct.unpack_from('<%dH' % n, body, 2)) + [len(body)]
+            if offs[0] != 2 + 2 * n or any(a > b for a, b in zip(offs, offs[1:])):
+                return False
+            found = False
+            for i in range(n):
+                try:
+                    found = write_request(body[offs[i]:offs[i + 1]]) or found
+                except Exception:
+                    pass
+            return found
+        if svc in (0x4D, 0x53, 0x10):
+            return request(cip)
+        return False
+
+    def frame_cip(f):
+        if not upper_bound:
+            return rc.dec_frame(f).get('cip')
+        h = rc.dec_header(f)
+        body = f[24:]
+        if h['command'] not in (0x6F, 0x70) or len(body) < 8:
+            return None
+        n, = struct.unpack_from('<H', body, 6)
+        off = 8
+        cip = None
+        for _ in range(n):
+            tid, ln = struct.unpack_from('<HH', body, off)
+            payload = body[off + 4:off + 4 + ln]          # an overstated item length ends with the frame
+            off += 4 + len(payload)
+            if tid == 0x00B2:
+                cip = payload
+            elif tid == 0x00B1:
+                cip = payload[2:]
+        return cip
+    for f in frames:
+        try:
+            cip = frame_cip(f)
+            if cip and write_request(cip):
+                return True
+        except Exception:
+            continue
+    return False
 
 
 def acknowledged_write(replies):
@@ -296,6 +433,15 @@ def in_process(ctx, rng, budget_s):
                         label, diff, how, len(replies)), wit)
                     return
                 ctx.count('state-changed-with-acknowledged-write')
+                # informational only (no verdict): how often the acknowledged write was not a complete write request under a literal
+                # reading of every length field.  The library treats inner lengths as upper bounds, ignores bytes behind the route path
+                # and stores as many whole elements as the data holds; judging that would be reading more into "well-formed" than
+                # the property says (DESIGN 8.2).
+                try:
+                    if not wellformed_write_present(hostile):
+                        ctx.count('info:acknowledged-write-not-literally-well-formed')
+                except Exception:
+                    pass
                 known = list(after['H'])
             # values must still be representable (no corruption of the stored list shape)
             if len(after['H']) != 8 or len(after['G']) != 4 or len(after['B']) != 3:
